@@ -779,6 +779,48 @@ func (up4 *UP4) removeGTPTunnelPeer(far far) {
 	up4.unsafeReleaseAllocatedGTPTunnelPeer(tunnelParameters)
 }
 
+// releaseStaleGTPTunnelPeers drops the references that an updated FAR still holds to GTP tunnel peers
+// other than the one denoted by its current tunnel parameters, and removes tunnel peers left unused.
+func (up4 *UP4) releaseStaleGTPTunnelPeers(far far) {
+	up4.tunnelPeerMu.Lock()
+	defer up4.tunnelPeerMu.Unlock()
+
+	current := tunnelParams{
+		tunnelIP4Src: ip2int(up4.accessIP.IP),
+		tunnelIP4Dst: far.tunnelIP4Dst,
+		tunnelPort:   far.tunnelPort,
+	}
+	reference := tnlPeerReference{
+		far.fseID, far.farID,
+	}
+
+	for tunnelParameters, tnlPeer := range up4.tunnelPeerIDs {
+		if tunnelParameters == current || !tnlPeer.usedBy.Contains(reference) {
+			continue
+		}
+
+		tnlPeer.usedBy.Remove(reference)
+
+		if tnlPeer.usedBy.Cardinality() != 0 {
+			continue
+		}
+
+		staleLog := logger.PfcpLog.With("far", far, "tunnel-peer", tnlPeer)
+
+		gtpTunnelPeerEntry, err := up4.p4RtTranslator.BuildGTPTunnelPeerTableEntry(tnlPeer.id, tunnelParameters)
+		if err != nil {
+			staleLog.Errorln("failed to build GTP tunnel peer entry to remove")
+			continue
+		}
+
+		if err := up4.p4client.ApplyTableEntries(p4.Update_DELETE, gtpTunnelPeerEntry); err != nil {
+			staleLog.Errorln("failed to remove GTP tunnel peer")
+		}
+
+		up4.unsafeReleaseAllocatedGTPTunnelPeer(tunnelParameters)
+	}
+}
+
 // Returns error if we reach maximum supported Application IDs.
 func (up4 *UP4) unsafeAllocateInternalApplicationID() (uint8, error) {
 	if len(up4.applicationIDsPool) == 0 {
@@ -1458,6 +1500,11 @@ func (up4 *UP4) sendUpdate(all PacketForwardingRules, updated PacketForwardingRu
 
 	if err := up4.modifyUP4ForwardingConfiguration(all.pdrs, all.fars, all.qers, p4.Update_MODIFY); err != nil {
 		return err
+	}
+
+	// no entry refers to the tunnel peers that the updated FARs used before anymore
+	for _, f := range updated.fars {
+		up4.releaseStaleGTPTunnelPeers(f)
 	}
 
 	return nil
